@@ -2,7 +2,7 @@
 Require Import Ink.Lib.Str.
 Require Import NArith List Bool.
 Require Import Ink.Model.Tables.
-Require Import Ink.Driver.RunBoard Ink.Driver.RunTable Ink.Driver.RunHistory Ink.Driver.RunPgn Ink.Driver.RunLichess.
+Require Import Ink.Driver.RunBoard Ink.Driver.RunTable Ink.Driver.RunHistory Ink.Driver.RunPgn Ink.Driver.RunLichess Ink.Driver.RunUci.
 Import ListNotations.
 
 Definition families : list (str * (Tables.t -> str -> str)) :=
@@ -13,7 +13,8 @@ Definition families : list (str * (Tables.t -> str -> str)) :=
     (lit "spec-check", fun _ => run_spec_check); (lit "spec-fen", fun _ => run_spec_fen); (lit "spec-perft", fun _ => run_spec_perft);
     (lit "table", fun _ => run_table); (lit "history", fun _ => run_history);
     (lit "pgn", fun _ => run_pgn);
-    (lit "lichess", fun _ => run_lichess) ].
+    (lit "lichess", fun _ => run_lichess);
+    (lit "uciparse", fun _ => run_uciparse); (lit "ucimove", fun _ => run_ucimove) ].
 
 Fixpoint lookup_family (name : str) (l : list (str * (Tables.t -> str -> str))) : option (Tables.t -> str -> str) :=
   match l with [] => None | (n, f) :: r => if str_eqb n name then Some f else lookup_family name r end.
